@@ -325,6 +325,19 @@ impl World {
             "res": if res.is_ok() {"ok"} else {"error"}, "post":post}));
     }
 
+    pub async fn expire(&mut self, i: usize) {
+        let rid = self.nodes[i].rid.clone();
+        let res = self.nodes[i]
+            .rep
+            .as_mut()
+            .expect("replica idle")
+            .expire_tasks()
+            .await;
+        let st = self.observe(i).await;
+        let post = self.db_json(&st);
+        self.emit(json!({"a":"Expire","r":rid,"res": if res.is_ok() {"ok"} else {"error"},"post":post}));
+    }
+
     pub async fn install_ws(&mut self, i: usize, ws: &[String]) {
         let rid = self.nodes[i].rid.clone();
         let mut v = vec![None];
@@ -463,6 +476,26 @@ pub async fn run_behaviour(b: &Value, dir: Option<PathBuf>) -> Vec<Value> {
                 let i = w.idx(s["r"].as_str().unwrap());
                 let k = s["k"].as_u64().unwrap();
                 w.arm_storage_fault(i, k, FailKind::Error);
+            }
+            "Setup" => {
+                // a common synchronised state: the first replica commits the operations, all sync
+                let mut ops = vec![];
+                let mut opsj = vec![];
+                for j in s["ops"].as_array().unwrap() {
+                    let op = w.ctx.borrow_mut().model.op_from_json(j);
+                    opsj.push(w.ctx.borrow_mut().model.op_to_json(&op));
+                    ops.push(op);
+                }
+                w.edit(0, ops, opsj).await;
+                for i in 0..w.nodes.len() {
+                    w.full_sync(i).await;
+                }
+            }
+            "Expire" => {
+                let i = w.idx(s["r"].as_str().unwrap());
+                if !w.nodes[i].running {
+                    w.expire(i).await;
+                }
             }
             "GetUndo" => {
                 let i = w.idx(s["r"].as_str().unwrap());
